@@ -383,7 +383,21 @@ fn async_cmd(a: &Args) {
             // an ordinary system (poisons the job) or a thread-local one (panics inside wait, once)
             let want = if rng.gen_bool(0.5) { "plain" } else { "tl" };
             let cand: Vec<usize> = s.rec.sys.iter().filter(|x| x.kind == want && x.builder == s.top && x.addr != 0).map(|x| x.gid).collect();
-            if let Some(g) = cand.choose(&mut rng) {
+            // half of the ordinary victims: a system of a non-first group of a stage with >= 3 groups that is not the
+            // last stage (its siblings are still held inside run when it panics; later stages must not start)
+            let wide: Vec<usize> = {
+                let (st, _) = s.rec.layout_gids(&s.ad.verif_layout());
+                let n = st.len();
+                st.iter()
+                    .enumerate()
+                    .filter(|(i, g)| g.len() >= 3 && i + 1 < n)
+                    .flat_map(|(_, g)| g[1..].iter().flatten().copied().collect::<Vec<_>>())
+                    .filter(|g| *g != 0)
+                    .collect()
+            };
+            if want == "plain" && !wide.is_empty() && rng.gen_bool(0.5) {
+                panics.push(*wide.choose(&mut rng).unwrap());
+            } else if let Some(g) = cand.choose(&mut rng) {
                 panics.push(*g);
             }
         }
